@@ -16,7 +16,8 @@
 (***************************************************************************)
 EXTENDS MovePicker
 
-CONSTANTS NCmin, NCmax, NQmin, NQmax
+CONSTANTS NCmin, NCmax, NQmin, NQmax,
+          Shard, NShards      \* the configurations are dealt out to NShards independent TLC runs
 
 \* Weak orderings of n items as dense rank vectors: the values used are exactly 0..k-1.
 Dense(n) ==
@@ -37,8 +38,9 @@ MCInit ==
       \E cs \in CapScores(n), hs \in Dense(m) :
         LET any == (1..(n + m)) \cup {Absent, Foreign} IN
         \/ \E h \in (1..(n + m)) \cup {Absent}, a \in any, b \in any, c \in any :
-              InitWith(MkCfg(n, m, cs, hs, h, a, b, c, FALSE))
-        \/ /\ hs = Zeros(m)
+              /\ (h + 2 + 3 * (a + 2) + 7 * (b + 2) + 11 * (c + 2)) % NShards = Shard
+              /\ InitWith(MkCfg(n, m, cs, hs, h, a, b, c, FALSE))
+        \/ /\ hs = Zeros(m) /\ Shard = 0
            /\ InitWith(MkCfg(n, m, cs, hs, Absent, Absent, Absent, Absent, TRUE))
 
 MCSpec == MCInit /\ [][Next]_vars
